@@ -3,6 +3,7 @@ package rib
 import (
 	"fmt"
 	"testing"
+	"testing/synctest"
 
 	"github.com/named-data/ndnd/fw/table"
 
@@ -101,6 +102,7 @@ func runC08Rib(c Case) (res evid.Result) {
 			chain = true
 		}
 		applyOp(op)
+		synctest.Wait()
 		m.reconcile()
 		i++
 		return checkStructure(m, c, i-1)
